@@ -11,6 +11,7 @@ from vlib.props.c01 import parents, ref_parent, compare_node, versions
 from vlib.props.c02 import compare_pub
 
 PROPERTY_ID = "C18"
+OPTIMIZED = ['ckd', 'master', 'bip85', 'sequence']   # clauses run a second time under `python -O` (assert statements stripped)
 RULE = ("the PRF (bip32.hmac_sha512 / bip85.hmac_sha512) is replaced for one case by a scripted chosen-output "
         "function; outputs sit at the corners BIP32 declares invalid (IL >= n, k_i = 0, K_i = infinity) and at "
         "their valid neighbours as controls; the oracle is BIP32's validity predicate evaluated by the reference")
